@@ -10,6 +10,7 @@ import (
 	"testing"
 
 	z "github.com/Oudwins/zog"
+	"github.com/Oudwins/zog/parsers/zjson"
 	"pgregory.net/rapid"
 
 	"verifharness/hh"
@@ -24,12 +25,15 @@ type c08Schema struct {
 	Root   *model.Node `json:"root"`
 	Mode   string      `json:"mode"`
 	Inputs []model.Val `json:"inputs"`
+	// JSON[i] != "": input i is this document, handed over through zjson.Decode (struct roots, parse only)
+	JSON []string `json:"json,omitempty"`
 }
 
 type c08Step struct {
-	S       int  `json:"s"`
-	I       int  `json:"i"`
-	Collect bool `json:"collect,omitempty"`
+	S       int    `json:"s"`
+	I       int    `json:"i"`
+	Collect bool   `json:"collect,omitempty"`
+	Fmt     string `json:"fmt,omitempty"` // WithIssueFormatter stamping this marker
 }
 
 type c08Case struct {
@@ -53,18 +57,22 @@ type builtSchema struct {
 	env     *model.Env
 	mode    string
 	inputs  []model.Val
+	json    []string
 	specIss []string
 }
 
-func (b *builtSchema) run(i int) *model.Result {
+func (b *builtSchema) run(i int, fmtMarker string) *model.Result {
 	dest := reflect.New(b.typ)
 	var in any
-	if b.mode == "validate" {
+	switch {
+	case b.mode == "validate":
 		model.SetFromVal(dest.Elem(), b.inputs[i])
-	} else {
+	case i < len(b.json) && b.json[i] != "":
+		in = zjson.Decode(strings.NewReader(b.json[i])) // a fresh reader per call
+	default:
 		in = b.inputs[i].Go() // a fresh input value per call: inputs are the caller's own data
 	}
-	return model.Run(b.schema, b.env, model.Exec{Mode: b.mode}, in, dest)
+	return model.Run(b.schema, b.env, model.Exec{Mode: b.mode, Formatter: fmtMarker}, in, dest)
 }
 
 func propC08(c c08Case) hh.Verdict {
@@ -73,7 +81,7 @@ func propC08(c c08Case) hh.Verdict {
 		s.Root.Number()
 		env := &model.Env{Silent: true}
 		sch, typ := model.Build(s.Root, env)
-		b := &builtSchema{schema: sch, typ: typ, env: env, mode: s.Mode, inputs: s.Inputs}
+		b := &builtSchema{schema: sch, typ: typ, env: env, mode: s.Mode, inputs: s.Inputs, json: s.JSON}
 		// independent expectation for the issues: the executable specification (no zog code involved,
 		// so state that zog initialises lazily is still cold when the goroutines start)
 		for k := range s.Inputs {
@@ -86,7 +94,7 @@ func propC08(c c08Case) hh.Verdict {
 				in = cs.Input.Go()
 			}
 			spec := model.Spec(s.Root, model.SpecCfg{Mode: s.Mode}, in, model.DeepCopy(dest.Elem()))
-			if spec.Unknown != "" {
+			if spec.Unknown != "" || (k < len(s.JSON) && s.JSON[k] != "") {
 				b.specIss = append(b.specIss, "?")
 			} else {
 				b.specIss = append(b.specIss, fmt.Sprint(spec.Issues))
@@ -94,7 +102,10 @@ func propC08(c c08Case) hh.Verdict {
 		}
 		bs[i] = b
 	}
-	type obsKey struct{ s, i int }
+	type obsKey struct {
+		s, i int
+		fmt  string
+	}
 	var mu sync.Mutex
 	var firstErr string
 	seen := map[obsKey]string{} // first concurrent observation per (schema, input)
@@ -108,19 +119,29 @@ func propC08(c c08Case) hh.Verdict {
 			for r := 0; r < c.Rounds; r++ {
 				for k, st := range plan {
 					b := bs[st.S]
-					res := b.run(st.I)
+					res := b.run(st.I, st.Fmt)
 					got := observe(res)
 					issues := fmt.Sprint(res.Norm(false))
+					stale := ""
+					if st.Fmt != "" {
+						for _, is := range res.All() {
+							if (is.Code == "invalid_json" || is.Code == "coerce" || is.Code == "required") && is.Message != st.Fmt && !strings.HasPrefix(is.Message, "bad value") && is.Message != "nope" {
+								stale = fmt.Sprintf("issue %s at %q carries message %q, this call's formatter stamps %q", is.Code, is.Path, is.Message, st.Fmt)
+							}
+						}
+					}
 					mu.Lock()
-					prev, ok := seen[obsKey{st.S, st.I}]
+					prev, ok := seen[obsKey{st.S, st.I, st.Fmt}]
 					if !ok {
-						seen[obsKey{st.S, st.I}] = got
+						seen[obsKey{st.S, st.I, st.Fmt}] = got
 						prev = got
 					}
 					bad := ""
 					switch {
 					case res.Panic != nil:
 						bad = fmt.Sprintf("panicked: %v", res.Panic)
+					case stale != "":
+						bad = stale
 					case prev != got:
 						bad = fmt.Sprintf("returned\n  %s\nwhile another concurrent call of the same schema and input returned\n  %s", got, prev)
 					case b.specIss[st.I] != "?" && b.specIss[st.I] != issues:
@@ -151,7 +172,7 @@ func propC08(c c08Case) hh.Verdict {
 	}
 	// every concurrent result must also equal what the call returns running alone (afterwards, sequentially)
 	for k, got := range seen {
-		res := bs[k.s].run(k.i)
+		res := bs[k.s].run(k.i, k.fmt)
 		if alone := observe(res); alone != got {
 			return hh.Fail("schema #%d input #%d [%s]: concurrent calls returned\n  %s\nrunning alone it returns\n  %s", k.s, k.i, bs[k.s].mode, got, alone)
 		}
@@ -198,7 +219,18 @@ func genC08(rt *rapid.T, thorough bool) c08Case {
 				s.Inputs = append(s.Inputs, typed)
 			}
 		}
-		// PostTransforms are order-gated by design: keep them only where no issue can occur is unknowable; drop them when any input fails
+		if mode == "parse" && root.Kind == model.KStruct && rapid.IntRange(0, 2).Draw(rt, "json") == 0 {
+			// the same inputs as JSON documents through zjson, plus undecodable ones
+			s.JSON = make([]string, len(s.Inputs))
+			for k := range s.Inputs {
+				var sb strings.Builder
+				if err := model.JSONOf(root, s.Inputs[k], &sb); err == nil && rapid.IntRange(0, 3).Draw(rt, "jkeep") > 0 {
+					s.JSON[k] = sb.String()
+				} else {
+					s.JSON[k] = rapid.SampledFrom([]string{"null", "[1]", `{"a":`, "{}", `"s"`}).Draw(rt, "jbad")
+				}
+			}
+		}
 		c.Schemas = append(c.Schemas, s)
 	}
 	ng := rapid.SampledFrom([]int{8, 16, 16, 32}).Draw(rt, "goroutines")
@@ -206,7 +238,8 @@ func genC08(rt *rapid.T, thorough bool) c08Case {
 		var plan []c08Step
 		for k, n := 0, rapid.IntRange(5, 25).Draw(rt, "plen"); k < n; k++ {
 			s := rapid.IntRange(0, ns-1).Draw(rt, "s")
-			plan = append(plan, c08Step{S: s, I: rapid.IntRange(0, len(c.Schemas[s].Inputs)-1).Draw(rt, "i"), Collect: rapid.IntRange(0, 3).Draw(rt, "collect") == 0})
+			plan = append(plan, c08Step{S: s, I: rapid.IntRange(0, len(c.Schemas[s].Inputs)-1).Draw(rt, "i"), Collect: rapid.IntRange(0, 3).Draw(rt, "collect") == 0,
+				Fmt: rapid.SampledFrom([]string{"", "", "FMT-A", "FMT-B"}).Draw(rt, "fmt")})
 		}
 		c.Plans = append(c.Plans, plan)
 	}
@@ -251,7 +284,7 @@ func stripGatedPosts(c *c08Case) {
 				in = s.Inputs[k].Go()
 			}
 			// decided by the specification, without running zog (no warm-up of lazily initialised state)
-			if spec := model.Spec(s.Root, model.SpecCfg{Mode: s.Mode}, in, model.DeepCopy(dest.Elem())); spec.Unknown != "" || len(spec.Issues) > 0 {
+			if spec := model.Spec(s.Root, model.SpecCfg{Mode: s.Mode}, in, model.DeepCopy(dest.Elem())); spec.Unknown != "" || len(spec.Issues) > 0 || len(s.JSON) > 0 {
 				issues = true
 			}
 		}
